@@ -498,6 +498,11 @@ class PathEnumerator:
             base = self.ev.expr(tg.value, f)
             idx = self.ev.expr(tg.slice, f) if not isinstance(tg.slice, ast.Slice) else ("const", "slice")
             p.events.append(Event("store", st, ("store", base, ("index", idx), v)))
+            if isinstance(tg.value, ast.Name) and base[0] == "var" and base[3][0] == "dict" and idx[0] == "const" \
+                    and not any(k == ("star",) for k, _ in base[3][1]):
+                # a local dict display updated under a constant key keeps its identity and has that entry
+                items = [(k, val) for k, val in base[3][1] if k != idx] + [(idx, v)]
+                p.env[tg.value.id] = ("var", base[1], base[2], ("dict", tuple(items)))
             return
         raise Unsupported(f"assignment target {ast.unparse(tg)}")
 
